@@ -15,7 +15,9 @@ PROPS = {
     "C02": ["StoreChangedWithoutHeaders", "AdoptedNotFromBatch", "ReorgBelowCheckpoint", "ReorgNotHeavier",
             "IllegalTruncation", "WorkDecreased", "ExtensionAdoptedInFull", "HeavierBranchAdoptedInFull",
             "HandlerPanicked", "HandlerHung"],
-    "C19": ["DisconnectEvents", "ConnectEvents", "EventOrder", "BacklogExact", "BacklogAtEvent"],
+    # HandlerHung: a handler that never returns while it announces a batch / a rollback (e.g. waiting for a
+    # lock the event consumer's backlog request holds) announces nothing further: "every block ... is announced"
+    "C19": ["DisconnectEvents", "ConnectEvents", "EventOrder", "BacklogExact", "BacklogAtEvent", "HandlerHung"],
     # multi-store crash points (used by the C08 check of the HeaderStore family)
     "C08": ["CrashRecoverOpens", "CrashChainIntact", "CrashFilterConsistent"],
 }
@@ -26,10 +28,12 @@ CONFIGS = {
                  dict(universe="deep", MaxMsgs=3, MaxRestarts=1, MaxFaults=0, MaxCrashes=0),
                  dict(universe="retarget", MaxMsgs=3, MaxRestarts=1, MaxFaults=0, MaxCrashes=0),
                  dict(universe="quick", MaxMsgs=4, MaxRestarts=1, MaxFaults=0, MaxCrashes=0),
-                 dict(universe="stale", MaxMsgs=3, MaxRestarts=1, MaxFaults=0, MaxCrashes=0)],
+                 dict(universe="stale", MaxMsgs=3, MaxRestarts=1, MaxFaults=0, MaxCrashes=0),
+                 dict(universe="cpalt", MaxMsgs=3, MaxPeerEv=3, MaxRestarts=1, MaxFaults=0, MaxCrashes=0)],
     "deep": [dict(universe="deep", MaxMsgs=3, MaxRestarts=0, MaxFaults=0, MaxCrashes=0)],
     "retarget": [dict(universe="retarget", MaxMsgs=3, MaxRestarts=0, MaxFaults=0, MaxCrashes=0)],
     "stale": [dict(universe="stale", MaxMsgs=3, MaxRestarts=0, MaxFaults=0, MaxCrashes=0)],
+    "cpalt": [dict(universe="cpalt", MaxMsgs=3, MaxPeerEv=1, MaxRestarts=0, MaxFaults=0, MaxCrashes=0)],
     "crash": [dict(universe="u1", MaxMsgs=2, MaxRestarts=0, MaxFaults=0, MaxCrashes=1)],
     "crash3": [dict(universe="u1", MaxMsgs=3, MaxRestarts=0, MaxFaults=0, MaxCrashes=1)],
     "faults": [dict(universe="u1", MaxMsgs=3, MaxRestarts=0, MaxFaults=1, MaxCrashes=0)],
@@ -113,6 +117,7 @@ def run_one(prop_id, cfg, rng, sc, replay=None):
     uname = cfg.pop("universe")
     uni = bm_universe.UNIVERSES[uname]()
     consts = dict(cfg)
+    consts.setdefault("MaxPeerEv", 0)
     consts.update(CODE_VERSION)
     _CP["ids"] = set(uni["checkpoints"].values())
     os.makedirs(sc)
@@ -183,7 +188,7 @@ def run(prop_id, tier, seed, replay=None):
             cfgs = CONFIGS[tier]
             if tier == "quick" and prop_id in ("C01", "C02"):
                 # validity under other chain parameters / deep forks matters to these two
-                cfgs = cfgs + CONFIGS["deep"] + CONFIGS["retarget"]
+                cfgs = cfgs + CONFIGS["deep"] + CONFIGS["retarget"] + CONFIGS["cpalt"]
             if tier == "quick" and prop_id == "C02":
                 # "not current" (tip older than 24 h): whom the client listens to while it is syncing an old chain
                 cfgs = cfgs + CONFIGS["stale"]
